@@ -282,9 +282,12 @@ class AsyncTLSStreamTransport(AsyncStreamTransport):
             except _ssl_module.SSLWantReadError:
                 try:
                     # Flush any pending writes first
-                    async with self.__transport_send_lock:
-                        if self._write_bio.pending:
-                            await self._transport.send_all(self._write_bio.read())
+                    # (do not wait for the send lock if there is nothing to flush: a sender blocked by the peer
+                    # would otherwise prevent any read, and both sides could wait for each other forever)
+                    if self._write_bio.pending:
+                        async with self.__transport_send_lock:
+                            if self._write_bio.pending:
+                                await self._transport.send_all(self._write_bio.read())
 
                     async with self.__transport_recv_lock:
                         await self.__incoming_reader.readinto(self._read_bio)
@@ -301,9 +304,10 @@ class AsyncTLSStreamTransport(AsyncStreamTransport):
                 raise
             else:
                 # Flush any pending writes first
-                async with self.__transport_send_lock:
-                    if self._write_bio.pending:
-                        await self._transport.send_all(self._write_bio.read())
+                if self._write_bio.pending:
+                    async with self.__transport_send_lock:
+                        if self._write_bio.pending:
+                            await self._transport.send_all(self._write_bio.read())
 
                 return result
 
